@@ -1,2 +1,754 @@
-From EO Require Import Prelude.Py Model.Spec Model.Elab Model.Ser Model.Deser Model.GenHarness.
-Theorem C17_placeholder : True. Proof. exact I. Qed.
+(* C17: a specification that breaks a rule of the protocol grammar is rejected (elab = Err), wherever the violation
+   occurs.  Statements only; the proofs are in Proofs/Reject.v.
+   Vocabulary (defined in Proofs/Reject.v):
+     rejects r                 := exists e, r = Err e
+     bad_at T tf cls c i       := forall fuel rest, rejects (elab_instrs T tf fuel cls c (i :: rest))
+     body_rejected T tf cls c b := forall fuel, rejects (elab_instrs T tf fuel cls c b)
+     chunk_ctx c / case_ctx c  := the context in which a <chunked> body / a <case> body is elaborated
+     occurs i kc ks body       := i occurs in body at some (arbitrarily nested) position; kc / ks tell whether the
+                                  path crosses a <chunked> / a <case>
+     body_of f body            := body is the body of a struct or packet declared in file f *)
+From EO Require Import Prelude.Py Model.Spec Model.Elab Proofs.ElabAttr Proofs.Reject.
+Open Scope string_scope.
+Open Scope list_scope.
+Open Scope Z_scope.
+Set Default Timeout 60.
+
+(* ================= test protocol for the non-vacuity examples ================= *)
+Definition enum_fam := mkREnum (Some "PacketFamily") (Some "char") [(Some "Connection", Some "1")].
+Definition enum_act := mkREnum (Some "PacketAction") (Some "char") [(Some "Accept", Some "1"); (Some "Ping", Some "2")].
+Definition enum_dir := mkREnum (Some "Direction") (Some "char") [(Some "Down", Some "0"); (Some "Up", Some "1")].
+Definition struct_coords :=
+  mkRStruct (Some "Coords") [RField (Some "x") (Some "char") None None None None; RField (Some "y") (Some "char") None None None None].
+Definition net_file (enums : list renum) (structs : list rstruct) := mkRFile "net" ([enum_fam; enum_act; enum_dir] ++ enums) (struct_coords :: structs) [].
+Definition pkt (body : list rinstr) := mkRPacket (Some "Connection") (Some "Accept") body.
+Definition client_file (body : list rinstr) := mkRFile "net/client" [] [] [pkt body].
+Definition proto (body : list rinstr) : list rfile := [net_file [] []; client_file body].
+
+Definition fld (n ty : string) := RField (Some n) (Some ty) None None None None.
+Definition fld_len (n ty len : string) := RField (Some n) (Some ty) (Some len) None None None.
+Definition fld_opt (n ty : string) := RField (Some n) (Some ty) None None (Some "true") None.
+Definition lit (ty v : string) := RField None (Some ty) None None None (Some v).
+Definition arr (n ty : string) := RArray (Some n) (Some ty) None None None None.
+Definition arr_delim (n ty : string) := RArray (Some n) (Some ty) None None (Some "true") None.
+Definition len (n ty : string) := RLength (Some n) (Some ty) None None.
+Definition case_ (v : string) (body : list rinstr) := RCase (Some v) None body.
+Definition default_ (body : list rinstr) := RCase None (Some "true") body.
+
+Definition good_body : list rinstr :=
+  [fld "a" "char"; fld "d" "Direction"; len "n" "char"; fld_len "s" "string" "n"; fld "c" "Coords";
+   RSwitch (Some "a") [case_ "1" [fld "p" "short"]; default_ [fld "q" "int"]];
+   RSwitch (Some "d") [case_ "Up" [fld "p" "short"]; case_ "7" []];
+   RChunked [arr_delim "xs" "char"; RBreak; fld "t" "string"]].
+
+Example C17_base_accepted : accepts (proto good_body) = true.
+Proof. vm_compute. reflexivity. Qed.
+
+
+(* ================= (A) propagation: a rejected part rejects the whole, for every fuel ================= *)
+Section A.
+  Variable T : tenv.
+  Variable tf : nat.
+  Notation EI := (elab_instrs T tf).
+
+  (* sequence: pre succeeds (for some fuel) with context c1, rest is rejected from c1 *)
+  Theorem C17_A_sequence cls c pre rest f1 c1 es aux :
+    EI f1 cls c pre = Ok (c1, es, aux) -> (forall f, rejects (EI f cls c1 rest)) ->
+    forall f, rejects (EI f cls c (pre ++ rest)).
+  Proof. exact (seq_rejected T tf cls c pre rest f1 c1 es aux). Qed.
+
+  (* sequence: pre itself is rejected *)
+  Theorem C17_A_sequence_prefix cls c pre rest :
+    (forall f, rejects (EI f cls c pre)) -> forall f, rejects (EI f cls c (pre ++ rest)).
+  Proof. exact (seq_rejected_prefix T tf cls c pre rest). Qed.
+
+  (* sequence: whatever pre does, rest is rejected from every context pre can produce *)
+  Theorem C17_A_sequence_gen cls c pre rest :
+    (forall f c1 es aux, EI f cls c pre = Ok (c1, es, aux) -> forall f', rejects (EI f' cls c1 rest)) ->
+    forall f, rejects (EI f cls c (pre ++ rest)).
+  Proof. exact (seq_rejected_gen T tf cls c pre rest). Qed.
+
+  (* one rejected instruction anywhere in a list rejects the list *)
+  Theorem C17_A_sequence_instruction cls c pre i rest :
+    (forall c1, bad_at T tf cls c1 i) -> forall f, rejects (EI f cls c (pre ++ i :: rest)).
+  Proof. exact (seq_rejected_instr_any T tf cls c pre i rest). Qed.
+
+  Theorem C17_A_chunked cls c body :
+    (forall f, rejects (EI f cls (chunk_ctx c) body)) ->
+    forall f rest, rejects (EI f cls c (RChunked body :: rest)).
+  Proof. exact (chunked_rejected T tf cls c body). Qed.
+
+  Theorem C17_A_switch cls c field cs1 v d body cs2 :
+    (forall ccls f, rejects (EI f ccls (case_ctx c) body)) ->
+    forall f rest, rejects (EI f cls c (RSwitch field (cs1 ++ RCase v d body :: cs2) :: rest)).
+  Proof. exact (switch_rejected T tf cls c field cs1 v d body cs2). Qed.
+
+  Theorem C17_A_object cls body : (forall f, rejects (EI f cls ctx0 body)) -> rejects (elab_object T tf cls body).
+  Proof. exact (object_rejected T tf cls body). Qed.
+
+  Theorem C17_A_file_struct f s :
+    In s (rf_structs f) -> (forall n, rs_name s = Some n -> rejects (elab_object T tf n (rs_body s))) ->
+    rejects (gen_file T tf f).
+  Proof. exact (file_rejected_struct T tf f s). Qed.
+
+  Theorem C17_A_file_packet f p :
+    In p (rf_packets f) -> (forall cls, rejects (elab_object T tf cls (rp_body p))) -> rejects (gen_file T tf f).
+  Proof. exact (file_rejected_packet T tf f p). Qed.
+
+  (* a context-insensitive local violation is rejected at ANY path, from any context, for any fuel *)
+  Theorem C17_A_any_path i kc ks body :
+    (forall cls c, bad_at T tf cls c i) -> occurs i kc ks body -> forall cls c f, rejects (EI f cls c body).
+  Proof. exact (occurs_rejected T tf i kc ks body). Qed.
+
+  (* context-sensitive violations: P holds initially and survives along the path *)
+  Theorem C17_A_any_path_gen (P : ctx -> Prop) i kc ks body :
+    (forall cls c, P c -> bad_at T tf cls c i) -> seq_stable T tf P -> occurs i kc ks body ->
+    (kc = true -> chunk_stable P) -> (ks = true -> case_stable P) ->
+    forall cls c, P c -> forall f, rejects (EI f cls c body).
+  Proof. intros Hb Hs Ho. exact (occurs_rejected_gen T tf P i Hb Hs kc ks body Ho). Qed.
+End A.
+
+Theorem C17_A_protocol_index fs : rejects (index_files [] fs) -> rejects (elab fs).
+Proof. exact (protocol_rejected_index fs). Qed.
+
+Theorem C17_A_protocol_file fs f :
+  In f fs -> (forall T, index_files [] fs = Ok T -> rejects (gen_file T (S (S (List.length T))) f)) -> rejects (elab fs).
+Proof. exact (protocol_rejected_file fs f). Qed.
+
+(* a rejected struct or packet body anywhere in any file rejects the whole protocol *)
+Theorem C17_A_protocol_body fs f body :
+  In f fs -> body_of f body ->
+  (forall T, index_files [] fs = Ok T -> forall cls f', rejects (elab_instrs T (S (S (List.length T))) f' cls ctx0 body)) ->
+  rejects (elab fs).
+Proof. exact (protocol_rejected_body fs f body). Qed.
+
+(* the rule holds wherever in a specification the violation occurs *)
+Theorem C17_A_protocol_any_path fs f body i kc ks :
+  In f fs -> body_of f body -> occurs i kc ks body ->
+  (forall T, index_files [] fs = Ok T -> forall cls c, bad_at T (S (S (List.length T))) cls c i) ->
+  rejects (elab fs).
+Proof. exact (protocol_rejected_occurrence fs f body i kc ks). Qed.
+
+Theorem C17_A_accepts fs : rejects (elab fs) <-> accepts fs = false.
+Proof. exact (rejects_accepts fs). Qed.
+
+(* ================= (B) local rules ================= *)
+Section B.
+  Variable T : tenv.
+  Variable tf : nat.
+  Variable cls : string.
+  Variable c : ctx.
+  Notation bad := (bad_at T tf cls c).
+  Notation EI := (elab_instrs T tf).
+
+  (* --- unknown type --- *)
+  Theorem C17_B_field_unknown_type n tn l p o tx : rejects (get_type T tf tn l) -> bad (RField n (Some tn) l p o tx).
+  Proof. apply field_unknown_type. Qed.
+  Theorem C17_B_array_unknown_type n tn l o d tr : rejects (get_type T tf tn None) -> bad (RArray n (Some tn) l o d tr).
+  Proof. apply array_unknown_type. Qed.
+  Theorem C17_B_length_unknown_type n tn off o : rejects (get_type T tf tn None) -> bad (RLength n (Some tn) off o).
+  Proof. apply length_unknown_type. Qed.
+  Theorem C17_B_dummy_unknown_type tn tx : rejects (get_type T tf tn None) -> bad (RDummy (Some tn) tx).
+  Proof. apply dummy_unknown_type. Qed.
+  (* a name that is neither builtin nor declared does not resolve *)
+  Theorem C17_B_undeclared_name_unresolved fuel n : custom_name n = true -> assoc T n = None -> rejects (get_type T fuel n None).
+  Proof. apply get_type_unknown. Qed.
+
+  (* --- redefined field --- *)
+  Theorem C17_B_field_redefined n fd ty l p o tx : assoc (cx_fields c) n = Some fd -> bad (RField (Some n) ty l p o tx).
+  Proof. apply field_redefined. Qed.
+  Theorem C17_B_array_redefined n fd ty l o d tr : assoc (cx_fields c) n = Some fd -> bad (RArray (Some n) ty l o d tr).
+  Proof. apply array_redefined. Qed.
+  Theorem C17_B_length_redefined n fd ty off o : assoc (cx_fields c) n = Some fd -> bad (RLength (Some n) ty off o).
+  Proof. apply length_redefined. Qed.
+  (* two-instruction form: a binder of n, anything in between, another binder of n (same list) *)
+  Theorem C17_B_redefined_later i1 mid i2 rest n :
+    binds i1 n -> binds i2 n -> forall f, rejects (EI f cls c (i1 :: mid ++ i2 :: rest)).
+  Proof. apply redefined_later. Qed.
+  (* ... also when the second binder sits inside (nested) <chunked> sections later in the list *)
+  Theorem C17_B_redefined_later_path i1 i2 n kc body :
+    binds i1 n -> binds i2 n -> occurs i2 kc false body -> forall f, rejects (EI f cls c (i1 :: body)).
+  Proof. apply redefined_later_path. Qed.
+
+  (* --- length references --- *)
+  Theorem C17_B_field_bad_length_ref n ty l p o tx :
+    isdigit l = false -> assoc (cx_lenmap c) l = None -> bad (RField n ty (Some l) p o tx).
+  Proof. apply field_bad_length_ref. Qed.
+  Theorem C17_B_array_bad_length_ref n ty l o d tr :
+    isdigit l = false -> assoc (cx_lenmap c) l = None -> bad (RArray n ty (Some l) o d tr).
+  Proof. apply array_bad_length_ref. Qed.
+  Theorem C17_B_field_length_ref_twice n ty l p o tx : assoc (cx_lenmap c) l = Some true -> bad (RField n ty (Some l) p o tx).
+  Proof. apply field_length_ref_twice. Qed.
+  Theorem C17_B_array_length_ref_twice n ty l o d tr : assoc (cx_lenmap c) l = Some true -> bad (RArray n ty (Some l) o d tr).
+  Proof. apply array_length_ref_twice. Qed.
+  Theorem C17_B_length_ref_twice_later i1 mid i2 rest l :
+    isdigit l = false -> marks_len i1 l -> refs_len i2 l -> forall f, rejects (EI f cls c (i1 :: mid ++ i2 :: rest)).
+  Proof. apply length_ref_twice. Qed.
+  Theorem C17_B_length_ref_twice_later_path i1 i2 l kc body :
+    isdigit l = false -> marks_len i1 l -> refs_len i2 l -> occurs i2 kc false body ->
+    forall f, rejects (EI f cls c (i1 :: body)).
+  Proof. apply length_ref_twice_path. Qed.
+
+  (* --- delimited arrays / breaks outside chunked sections --- *)
+  Theorem C17_B_array_delimited_unchunked n ty l o d tr :
+    cx_chunked c = false -> flag_attr d = true -> bad (RArray n ty l o d tr).
+  Proof. apply array_delimited_unchunked. Qed.
+  Theorem C17_B_break_unchunked : cx_chunked c = false -> bad RBreak.
+  Proof. apply break_unchunked. Qed.
+  (* path form: not under any <chunked> of the object (the path may cross <case>s) *)
+  Theorem C17_B_break_outside_chunked ks body :
+    cx_chunked c = false -> occurs RBreak false ks body -> forall f, rejects (EI f cls c body).
+  Proof. apply break_outside_chunked. Qed.
+  Theorem C17_B_delimited_outside_chunked ks body n ty l o d tr :
+    cx_chunked c = false -> flag_attr d = true -> occurs (RArray n ty l o d tr) false ks body ->
+    forall f, rejects (EI f cls c body).
+  Proof. apply delimited_outside_chunked. Qed.
+  (* the invariant behind it: elaboration preserves cx_chunked (and accessible fields, and used length fields) *)
+  Theorem C17_B_context_invariant f is c' es aux : EI f cls c is = Ok (c', es, aux) -> ctx_le c c'.
+  Proof. apply EI_ctx_le. Qed.
+
+  (* --- required after optional --- *)
+  Theorem C17_B_field_required_after_optional n ty l p o tx : cx_ropt c = true -> flag_attr o = false -> bad (RField n ty l p o tx).
+  Proof. apply field_required_after_optional. Qed.
+  Theorem C17_B_array_required_after_optional n ty l o d tr : cx_ropt c = true -> flag_attr o = false -> bad (RArray n ty l o d tr).
+  Proof. apply array_required_after_optional. Qed.
+  Theorem C17_B_length_required_after_optional n ty off o : cx_ropt c = true -> flag_attr o = false -> bad (RLength n ty off o).
+  Proof. apply length_required_after_optional. Qed.
+  Theorem C17_B_required_right_after_optional i1 i2 rest :
+    optional_binder i1 -> required_binder i2 -> forall f, rejects (EI f cls c (i1 :: i2 :: rest)).
+  Proof. apply required_right_after_optional. Qed.
+  Theorem C17_B_required_after_optional i1 mid i2 rest :
+    optional_binder i1 -> Forall simple_binder mid -> required_binder i2 ->
+    forall f, rejects (EI f cls c (i1 :: mid ++ i2 :: rest)).
+  Proof. apply required_after_optional. Qed.
+
+  (* --- nothing after a dummy --- *)
+  Theorem C17_B_anything_after_dummy i : cx_rdummy c = true -> bad i.
+  Proof. apply anything_after_dummy. Qed.
+  Theorem C17_B_dummy_then_any ty tx i rest : forall f, rejects (EI f cls c (RDummy ty tx :: i :: rest)).
+  Proof. apply dummy_then_any. Qed.
+  Theorem C17_B_dummy_then_any_path ty tx i kc ks body :
+    occurs i kc ks body -> forall f, rejects (EI f cls c (RDummy ty tx :: body)).
+  Proof. apply after_dummy_path. Qed.
+
+  (* a <chunked> or <case> that ENDS with a dummy (at any depth) also forbids whatever follows it *)
+  Theorem C17_B_after_nested_dummy i j rest : leaves_dummy i -> forall f, rejects (EI f cls c (i :: j :: rest)).
+  Proof. apply after_nested_dummy. Qed.
+  Theorem C17_B_after_nested_dummy_path i j kc ks body :
+    leaves_dummy i -> occurs j kc ks body -> forall f, rejects (EI f cls c (i :: body)).
+  Proof. apply after_nested_dummy_path. Qed.
+
+  (* --- unnamed fields --- *)
+  Theorem C17_B_field_unnamed_without_value ty l p o : bad (RField None ty l p o None).
+  Proof. apply field_unnamed_without_value. Qed.
+  Theorem C17_B_field_unnamed_optional ty l p o tx : flag_attr o = true -> bad (RField None ty l p o tx).
+  Proof. apply field_unnamed_optional. Qed.
+
+  (* --- hardcoded values --- *)
+  Theorem C17_B_field_hardcoded_int_not_digits n tn l p o lit t i :
+    get_type T tf tn l = Ok t -> ti_ty t = EInt i -> isdigit lit = false -> bad (RField n (Some tn) l p o (Some lit)).
+  Proof. apply field_hardcoded_int_not_digits. Qed.
+  Theorem C17_B_field_hardcoded_bool_not_bool n tn l p o lit t u :
+    get_type T tf tn l = Ok t -> ti_ty t = EBool u -> lit <> "true" -> lit <> "false" -> bad (RField n (Some tn) l p o (Some lit)).
+  Proof. apply field_hardcoded_bool_not_bool. Qed.
+  Theorem C17_B_dummy_hardcoded_int_not_digits tn lit t i :
+    get_type T tf tn None = Ok t -> ti_ty t = EInt i -> isdigit lit = false -> bad (RDummy (Some tn) (Some lit)).
+  Proof. apply dummy_hardcoded_int_not_digits. Qed.
+  Theorem C17_B_dummy_hardcoded_bool_not_bool tn lit t u :
+    get_type T tf tn None = Ok t -> ti_ty t = EBool u -> lit <> "true" -> lit <> "false" -> bad (RDummy (Some tn) (Some lit)).
+  Proof. apply dummy_hardcoded_bool_not_bool. Qed.
+  Theorem C17_B_field_hardcoded_string_length_mismatch n tn l p o lit t enc z :
+    get_type T tf tn (Some l) = Ok t -> ti_ty t = EStr enc -> parse_int l = Some z -> z <> str_len lit ->
+    bad (RField n (Some tn) (Some l) p o (Some lit)).
+  Proof. apply field_hardcoded_string_length_mismatch. Qed.
+  (* enum, struct, blob: is_basic = false *)
+  Theorem C17_B_field_hardcoded_nonbasic n tn l p o lit t :
+    get_type T tf tn l = Ok t -> is_basic t = false -> bad (RField n (Some tn) l p o (Some lit)).
+  Proof. apply field_hardcoded_nonbasic. Qed.
+  Theorem C17_B_dummy_hardcoded_nonbasic tn lit t :
+    get_type T tf tn None = Ok t -> is_basic t = false -> bad (RDummy (Some tn) (Some lit)).
+  Proof. apply dummy_hardcoded_nonbasic. Qed.
+
+  (* --- length attribute on a non-string type --- *)
+  Theorem C17_B_length_attr_nonstring_unresolved fuel name l : is_string_name name = None -> rejects (get_type T fuel name (Some l)).
+  Proof. apply get_type_length_nonstring. Qed.
+  Theorem C17_B_field_length_on_nonstring n tn l p o tx : is_string_name tn = None -> bad (RField n (Some tn) (Some l) p o tx).
+  Proof. apply field_length_on_nonstring. Qed.
+
+  (* --- length fields --- *)
+  Theorem C17_B_length_non_integer_type n tn off o t :
+    get_type T tf tn None = Ok t -> is_integer t = None -> bad (RLength n (Some tn) off o).
+  Proof. apply length_non_integer_type. Qed.
+  Theorem C17_B_length_bad_offset n ty off o : parse_int off = None -> bad (RLength n ty (Some off) o).
+  Proof. apply length_bad_offset. Qed.
+
+  (* --- arrays --- *)
+  Theorem C17_B_array_unbounded_element n tn l o d tr t :
+    flag_attr d = false -> get_type T tf tn None = Ok t -> ti_bounded t = false -> bad (RArray n (Some tn) l o d tr).
+  Proof. apply array_unbounded_element. Qed.
+
+  (* --- missing attributes --- *)
+  Theorem C17_B_array_without_name ty l o d tr : bad (RArray None ty l o d tr).
+  Proof. apply array_without_name. Qed.
+  Theorem C17_B_array_without_type n l o d tr : bad (RArray n None l o d tr).
+  Proof. apply array_without_type. Qed.
+  Theorem C17_B_field_without_type n l p o tx : bad (RField n None l p o tx).
+  Proof. apply field_without_type. Qed.
+  Theorem C17_B_length_without_name ty off o : bad (RLength None ty off o).
+  Proof. apply length_without_name. Qed.
+  Theorem C17_B_length_without_type n off o : bad (RLength n None off o).
+  Proof. apply length_without_type. Qed.
+  Theorem C17_B_dummy_without_type tx : bad (RDummy None tx).
+  Proof. apply dummy_without_type. Qed.
+  Theorem C17_B_dummy_without_value ty : bad (RDummy ty None).
+  Proof. apply dummy_without_value. Qed.
+
+  (* --- switches --- *)
+  Theorem C17_B_switch_without_field cases : bad (RSwitch None cases).
+  Proof. apply switch_without_field. Qed.
+  Theorem C17_B_switch_inaccessible_field fname cases :
+    assoc (cx_fields c) fname = None -> cases <> [] -> bad (RSwitch (Some fname) cases).
+  Proof. apply switch_inaccessible_field. Qed.
+  Theorem C17_B_switch_on_array_field fname fd cases :
+    assoc (cx_fields c) fname = Some fd -> fd_array fd = true -> cases <> [] -> bad (RSwitch (Some fname) cases).
+  Proof. apply switch_on_array_field. Qed.
+  (* string, bool, blob, struct: switchable = false *)
+  Theorem C17_B_switch_on_unsuitable_type fname fd cases :
+    assoc (cx_fields c) fname = Some fd -> switchable (ti_ty (fd_ti fd)) = false -> cases <> [] ->
+    bad (RSwitch (Some fname) cases).
+  Proof. apply switch_on_unsuitable_type. Qed.
+  Theorem C17_B_switch_default_first field v d b more : bool_attr d false = true -> bad (RSwitch field (RCase v d b :: more)).
+  Proof. apply switch_default_first. Qed.
+  Theorem C17_B_switch_case_without_value field cases d b :
+    In (RCase None d b) cases -> bool_attr d false = false -> bad (RSwitch field cases).
+  Proof. apply switch_case_without_value. Qed.
+  Theorem C17_B_switch_case_int_not_digits fname fd i cases v d b :
+    assoc (cx_fields c) fname = Some fd -> ti_ty (fd_ti fd) = EInt i ->
+    In (RCase (Some v) d b) cases -> bool_attr d false = false -> isdigit v = false ->
+    bad (RSwitch (Some fname) cases).
+  Proof. apply switch_case_int_not_digits. Qed.
+  Theorem C17_B_switch_case_enum_declared_ordinal fname fd en u cases v z d b :
+    assoc (cx_fields c) fname = Some fd -> ti_ty (fd_ti fd) = EEnum en u ->
+    In (RCase (Some v) d b) cases -> bool_attr d false = false ->
+    parse_int v = Some z -> existsb (fun p => snd p =? z) (ti_values (fd_ti fd)) = true ->
+    bad (RSwitch (Some fname) cases).
+  Proof. apply switch_case_enum_declared_ordinal. Qed.
+  Theorem C17_B_switch_case_enum_unknown_name fname fd en u cases v d b :
+    assoc (cx_fields c) fname = Some fd -> ti_ty (fd_ti fd) = EEnum en u ->
+    In (RCase (Some v) d b) cases -> bool_attr d false = false ->
+    parse_int v = None -> assoc (ti_values (fd_ti fd)) v = None ->
+    bad (RSwitch (Some fname) cases).
+  Proof. apply switch_case_enum_unknown_name. Qed.
+
+  (* --- type-name syntax `base:under` --- *)
+  Theorem C17_D_override_two_colons fuel name base un :
+    split_colon name = (base, Some un) -> has_colon un = true -> rejects (get_type T fuel name None).
+  Proof. apply override_two_colons. Qed.
+  Theorem C17_D_override_by_itself fuel name base : split_colon name = (base, Some base) -> rejects (get_type T fuel name None).
+  Proof. apply override_by_itself. Qed.
+  Theorem C17_D_override_non_integer fuel name base un :
+    split_colon name = (base, Some un) -> builtin_int un = None -> rejects (get_type T fuel name None).
+  Proof. apply override_non_integer. Qed.
+  Theorem C17_D_override_on_integer fuel name base un i :
+    split_colon name = (base, Some un) -> builtin_int base = Some i -> rejects (get_type T fuel name None).
+  Proof. apply override_on_integer. Qed.
+  Theorem C17_D_override_on_struct fuel name base un s p :
+    split_colon name = (base, Some un) -> String.eqb base "bool" = false -> assoc T base = Some (RTStruct s p) ->
+    rejects (get_type T fuel name None).
+  Proof. apply override_on_struct. Qed.
+  (* integer types are exactly byte/char/short/three/int *)
+  Theorem C17_D_integer_types fuel tn ut i : get_type T fuel tn None = Ok ut -> is_integer ut = Some i -> builtin_int tn = Some i.
+  Proof. apply get_type_integer_inv. Qed.
+
+  (* --- a struct whose first (flattened) instruction has the struct's own type never resolves --- *)
+  Theorem C17_D_struct_self_reference_unresolved n s p i rest :
+    custom_name n = true -> assoc T n = Some (RTStruct s p) -> flatten (rs_body s) = i :: rest -> first_type_ref i n ->
+    forall fuel, rejects (get_type T fuel n None).
+  Proof. apply struct_self_reference. Qed.
+End B.
+
+(* ================= (D) declarations ================= *)
+Theorem C17_D_duplicate_type_names fs : ~ NoDup (declared_names fs) -> rejects (elab fs).
+Proof. intros H. apply protocol_rejected_index. now apply duplicate_type_names. Qed.
+Theorem C17_D_duplicate_type_across_files fs1 f fs2 g fs3 n :
+  declares_type f n -> declares_type g n -> rejects (elab (fs1 ++ f :: fs2 ++ g :: fs3)).
+Proof. intros H1 H2. apply protocol_rejected_index. now apply duplicate_type_across_files with n. Qed.
+Theorem C17_D_duplicate_enum_same_file fs f l1 e1 l2 e2 l3 n :
+  In f fs -> rf_enums f = l1 ++ e1 :: l2 ++ e2 :: l3 -> re_name e1 = Some n -> re_name e2 = Some n -> rejects (elab fs).
+Proof. intros Hf He H1 H2. apply protocol_rejected_index. exact (duplicate_enum_same_file fs f l1 e1 l2 e2 l3 n Hf He H1 H2). Qed.
+Theorem C17_D_duplicate_struct_same_file fs f l1 s1 l2 s2 l3 n :
+  In f fs -> rf_structs f = l1 ++ s1 :: l2 ++ s2 :: l3 -> rs_name s1 = Some n -> rs_name s2 = Some n -> rejects (elab fs).
+Proof. intros Hf Hs H1 H2. apply protocol_rejected_index. exact (duplicate_struct_same_file fs f l1 s1 l2 s2 l3 n Hf Hs H1 H2). Qed.
+Theorem C17_D_duplicate_enum_struct_same_file fs f e s n :
+  In f fs -> In e (rf_enums f) -> In s (rf_structs f) -> re_name e = Some n -> rs_name s = Some n -> rejects (elab fs).
+Proof. intros Hf He Hs H1 H2. apply protocol_rejected_index. exact (duplicate_enum_struct_same_file fs f e s n Hf He Hs H1 H2). Qed.
+Theorem C17_D_unnamed_type fs f :
+  In f fs -> ((exists e, In e (rf_enums f) /\ re_name e = None) \/ (exists s, In s (rf_structs f) /\ rs_name s = None)) ->
+  rejects (elab fs).
+Proof. intros Hf Hu. apply protocol_rejected_index. exact (unnamed_type fs f Hf Hu). Qed.
+
+(* unknown type, protocol level: a field/array/length/dummy at any path of any body whose type is not declared anywhere *)
+Theorem C17_D_unknown_type fs f body i kc ks n :
+  In f fs -> body_of f body -> occurs i kc ks body -> refers_type i n ->
+  custom_name n = true -> ~ In n (declared_names fs) -> rejects (elab fs).
+Proof. exact (protocol_unknown_type fs f body i kc ks n). Qed.
+
+(* enum values *)
+Theorem C17_D_enum_value_bad_ordinal e n t : In (n, t) (re_values e) -> try_parse_int t = None -> rejects (enum_values e).
+Proof. exact (enum_value_bad_ordinal e n t). Qed.
+Theorem C17_D_enum_value_unnamed e t : In (None, t) (re_values e) -> rejects (enum_values e).
+Proof. exact (enum_value_unnamed e t). Qed.
+Theorem C17_D_enum_duplicate_ordinal e l1 n1 t1 l2 n2 t2 l3 z :
+  re_values e = l1 ++ (n1, Some t1) :: l2 ++ (n2, Some t2) :: l3 -> parse_int t1 = Some z -> parse_int t2 = Some z ->
+  rejects (enum_values e).
+Proof. exact (enum_duplicate_ordinal e l1 n1 t1 l2 n2 t2 l3 z). Qed.
+Theorem C17_D_enum_duplicate_name e l1 n1 t1 l2 n2 t2 l3 :
+  re_values e = l1 ++ (Some n1, t1) :: l2 ++ (Some n2, t2) :: l3 -> python_name n1 = python_name n2 ->
+  rejects (enum_values e).
+Proof. exact (enum_duplicate_name e l1 n1 t1 l2 n2 t2 l3). Qed.
+(* ... and a declared enum with malformed values, or a malformed underlying type, rejects the protocol *)
+Theorem C17_D_enum_bad_values fs f e : In f fs -> In e (rf_enums f) -> rejects (enum_values e) -> rejects (elab fs).
+Proof. exact (protocol_enum_bad_values fs f e). Qed.
+Theorem C17_D_enum_non_integer_underlying fs f e tn :
+  In f fs -> In e (rf_enums f) -> re_type e = Some tn -> builtin_int tn = None -> rejects (elab fs).
+Proof. exact (protocol_enum_non_integer_underlying fs f e tn). Qed.
+Theorem C17_D_enum_without_underlying fs f e : In f fs -> In e (rf_enums f) -> re_type e = None -> rejects (elab fs).
+Proof. exact (protocol_enum_without_underlying fs f e). Qed.
+Theorem C17_D_enum_self_underlying fs f e : In f fs -> In e (rf_enums f) -> re_type e = re_name e -> rejects (elab fs).
+Proof. exact (protocol_enum_self_underlying fs f e). Qed.
+
+(* structs *)
+Theorem C17_D_struct_self_reference fs f s n i rest :
+  In f fs -> In s (rf_structs f) -> rs_name s = Some n -> flatten (rs_body s) = i :: rest -> first_type_ref i n ->
+  rejects (elab fs).
+Proof. exact (protocol_struct_self_reference fs f s n i rest). Qed.
+
+(* packets *)
+Theorem C17_D_packet_bad_path fs f p :
+  In f fs -> In p (rf_packets f) -> rf_path f <> "net/client" -> rf_path f <> "net/server" -> rejects (elab fs).
+Proof. exact (protocol_packet_bad_path fs f p). Qed.
+Theorem C17_D_packet_unknown_family fs f p fa :
+  In f fs -> In p (rf_packets f) -> rp_family p = Some fa ->
+  (forall g e t, In g fs -> In e (rf_enums g) -> re_name e = Some "PacketFamily" -> ~ In (Some fa, Some t) (re_values e)) ->
+  rejects (elab fs).
+Proof. exact (protocol_packet_unknown_family fs f p fa). Qed.
+Theorem C17_D_packet_unknown_action fs f p ac :
+  In f fs -> In p (rf_packets f) -> rp_action p = Some ac ->
+  (forall g e t, In g fs -> In e (rf_enums g) -> re_name e = Some "PacketAction" -> ~ In (Some ac, Some t) (re_values e)) ->
+  rejects (elab fs).
+Proof. exact (protocol_packet_unknown_action fs f p ac). Qed.
+Theorem C17_D_packet_without_family_or_action fs f p :
+  In f fs -> In p (rf_packets f) -> rp_family p = None \/ rp_action p = None -> rejects (elab fs).
+Proof. exact (protocol_packet_without_family_or_action fs f p). Qed.
+Theorem C17_D_duplicate_packet_id fs f l1 p1 l2 p2 l3 fa ac :
+  In f fs -> rf_packets f = l1 ++ p1 :: l2 ++ p2 :: l3 ->
+  rp_family p1 = Some fa -> rp_action p1 = Some ac -> rp_family p2 = Some fa -> rp_action p2 = Some ac ->
+  rejects (elab fs).
+Proof. exact (protocol_duplicate_packet_id fs f l1 p1 l2 p2 l3 fa ac). Qed.
+
+(* breaks / delimited arrays outside chunked sections, protocol level *)
+Theorem C17_D_break_outside_chunked fs f body ks :
+  In f fs -> body_of f body -> occurs RBreak false ks body -> rejects (elab fs).
+Proof. exact (protocol_rejected_break fs f body ks). Qed.
+Theorem C17_D_delimited_outside_chunked fs f body ks n ty l o d tr :
+  In f fs -> body_of f body -> flag_attr d = true -> occurs (RArray n ty l o d tr) false ks body -> rejects (elab fs).
+Proof. exact (protocol_rejected_delimited fs f body ks n ty l o d tr). Qed.
+
+(* ================= assumptions ================= *)
+Print Assumptions C17_A_sequence.
+Print Assumptions C17_A_sequence_prefix.
+Print Assumptions C17_A_sequence_gen.
+Print Assumptions C17_A_sequence_instruction.
+Print Assumptions C17_A_chunked.
+Print Assumptions C17_A_switch.
+Print Assumptions C17_A_object.
+Print Assumptions C17_A_file_struct.
+Print Assumptions C17_A_file_packet.
+Print Assumptions C17_A_any_path.
+Print Assumptions C17_A_any_path_gen.
+Print Assumptions C17_A_protocol_index.
+Print Assumptions C17_A_protocol_file.
+Print Assumptions C17_A_protocol_body.
+Print Assumptions C17_A_protocol_any_path.
+Print Assumptions C17_A_accepts.
+Print Assumptions C17_B_field_unknown_type.
+Print Assumptions C17_B_array_unknown_type.
+Print Assumptions C17_B_length_unknown_type.
+Print Assumptions C17_B_dummy_unknown_type.
+Print Assumptions C17_B_undeclared_name_unresolved.
+Print Assumptions C17_B_field_redefined.
+Print Assumptions C17_B_array_redefined.
+Print Assumptions C17_B_length_redefined.
+Print Assumptions C17_B_redefined_later.
+Print Assumptions C17_B_redefined_later_path.
+Print Assumptions C17_B_field_bad_length_ref.
+Print Assumptions C17_B_array_bad_length_ref.
+Print Assumptions C17_B_field_length_ref_twice.
+Print Assumptions C17_B_array_length_ref_twice.
+Print Assumptions C17_B_length_ref_twice_later.
+Print Assumptions C17_B_length_ref_twice_later_path.
+Print Assumptions C17_B_array_delimited_unchunked.
+Print Assumptions C17_B_break_unchunked.
+Print Assumptions C17_B_break_outside_chunked.
+Print Assumptions C17_B_delimited_outside_chunked.
+Print Assumptions C17_B_context_invariant.
+Print Assumptions C17_B_field_required_after_optional.
+Print Assumptions C17_B_array_required_after_optional.
+Print Assumptions C17_B_length_required_after_optional.
+Print Assumptions C17_B_required_right_after_optional.
+Print Assumptions C17_B_required_after_optional.
+Print Assumptions C17_B_anything_after_dummy.
+Print Assumptions C17_B_dummy_then_any.
+Print Assumptions C17_B_dummy_then_any_path.
+Print Assumptions C17_B_after_nested_dummy.
+Print Assumptions C17_B_after_nested_dummy_path.
+Print Assumptions C17_B_field_unnamed_without_value.
+Print Assumptions C17_B_field_unnamed_optional.
+Print Assumptions C17_B_field_hardcoded_int_not_digits.
+Print Assumptions C17_B_field_hardcoded_bool_not_bool.
+Print Assumptions C17_B_dummy_hardcoded_int_not_digits.
+Print Assumptions C17_B_dummy_hardcoded_bool_not_bool.
+Print Assumptions C17_B_field_hardcoded_string_length_mismatch.
+Print Assumptions C17_B_field_hardcoded_nonbasic.
+Print Assumptions C17_B_dummy_hardcoded_nonbasic.
+Print Assumptions C17_B_length_attr_nonstring_unresolved.
+Print Assumptions C17_B_field_length_on_nonstring.
+Print Assumptions C17_B_length_non_integer_type.
+Print Assumptions C17_B_length_bad_offset.
+Print Assumptions C17_B_array_unbounded_element.
+Print Assumptions C17_B_array_without_name.
+Print Assumptions C17_B_array_without_type.
+Print Assumptions C17_B_field_without_type.
+Print Assumptions C17_B_length_without_name.
+Print Assumptions C17_B_length_without_type.
+Print Assumptions C17_B_dummy_without_type.
+Print Assumptions C17_B_dummy_without_value.
+Print Assumptions C17_B_switch_without_field.
+Print Assumptions C17_B_switch_inaccessible_field.
+Print Assumptions C17_B_switch_on_array_field.
+Print Assumptions C17_B_switch_on_unsuitable_type.
+Print Assumptions C17_B_switch_default_first.
+Print Assumptions C17_B_switch_case_without_value.
+Print Assumptions C17_B_switch_case_int_not_digits.
+Print Assumptions C17_B_switch_case_enum_declared_ordinal.
+Print Assumptions C17_B_switch_case_enum_unknown_name.
+Print Assumptions C17_D_override_two_colons.
+Print Assumptions C17_D_override_by_itself.
+Print Assumptions C17_D_override_non_integer.
+Print Assumptions C17_D_override_on_integer.
+Print Assumptions C17_D_override_on_struct.
+Print Assumptions C17_D_integer_types.
+Print Assumptions C17_D_struct_self_reference_unresolved.
+Print Assumptions C17_D_duplicate_type_names.
+Print Assumptions C17_D_duplicate_type_across_files.
+Print Assumptions C17_D_duplicate_enum_same_file.
+Print Assumptions C17_D_duplicate_struct_same_file.
+Print Assumptions C17_D_duplicate_enum_struct_same_file.
+Print Assumptions C17_D_unnamed_type.
+Print Assumptions C17_D_unknown_type.
+Print Assumptions C17_D_enum_value_bad_ordinal.
+Print Assumptions C17_D_enum_value_unnamed.
+Print Assumptions C17_D_enum_duplicate_ordinal.
+Print Assumptions C17_D_enum_duplicate_name.
+Print Assumptions C17_D_enum_bad_values.
+Print Assumptions C17_D_enum_non_integer_underlying.
+Print Assumptions C17_D_enum_without_underlying.
+Print Assumptions C17_D_enum_self_underlying.
+Print Assumptions C17_D_struct_self_reference.
+Print Assumptions C17_D_packet_bad_path.
+Print Assumptions C17_D_packet_unknown_family.
+Print Assumptions C17_D_packet_unknown_action.
+Print Assumptions C17_D_packet_without_family_or_action.
+Print Assumptions C17_D_duplicate_packet_id.
+Print Assumptions C17_D_break_outside_chunked.
+Print Assumptions C17_D_delimited_outside_chunked.
+
+(* ================= non-vacuity: each rule rejects a concrete protocol that is accepted without the violation ========= *)
+Definition rej_acc (bad good : list rfile) : Prop := accepts bad = false /\ accepts good = true.
+Ltac run := vm_compute; split; reflexivity.
+
+Example C17_ex_unknown_type : rej_acc (proto [fld "a" "char"; fld "b" "nosuch"]) (proto [fld "a" "char"]).
+Proof. run. Qed.
+Example C17_ex_redefined_field : rej_acc (proto [fld "a" "char"; fld "b" "int"; arr "a" "short"]) (proto [fld "a" "char"; fld "b" "int"]).
+Proof. run. Qed.
+Example C17_ex_bad_length_ref : rej_acc (proto [fld "a" "char"; fld_len "s" "string" "a"]) (proto [fld "a" "char"]).
+Proof. run. Qed.
+Example C17_ex_length_ref_twice :
+  rej_acc (proto [len "n" "char"; fld_len "s" "string" "n"; fld "b" "char"; fld_len "t" "string" "n"])
+          (proto [len "n" "char"; fld_len "s" "string" "n"; fld "b" "char"]).
+Proof. run. Qed.
+Example C17_ex_delimited_outside_chunked :
+  rej_acc (proto [fld "a" "char"; RSwitch (Some "a") [case_ "1" [arr_delim "xs" "char"]]])
+          (proto [fld "a" "char"; RSwitch (Some "a") [case_ "1" []]]).
+Proof. run. Qed.
+Example C17_ex_delimited_inside_chunked_ok : accepts (proto [RChunked [fld "a" "char"; RSwitch (Some "a") [case_ "1" [arr_delim "xs" "char"]]]]) = true.
+Proof. vm_compute. reflexivity. Qed.
+Example C17_ex_break_outside_chunked : rej_acc (proto [fld "a" "char"; RBreak]) (proto [fld "a" "char"]).
+Proof. run. Qed.
+Example C17_ex_required_after_optional : rej_acc (proto [fld_opt "a" "char"; fld "b" "char"]) (proto [fld_opt "a" "char"]).
+Proof. run. Qed.
+Example C17_ex_after_dummy :
+  rej_acc (proto [RDummy (Some "char") (Some "0"); fld "b" "char"]) (proto [RDummy (Some "char") (Some "0")]).
+Proof. run. Qed.
+Example C17_ex_after_nested_dummy :
+  rej_acc (proto [fld "a" "char"; RSwitch (Some "a") [case_ "1" [RChunked [RDummy (Some "char") (Some "0")]]]; fld "b" "char"])
+          (proto [fld "a" "char"; RSwitch (Some "a") [case_ "1" [RChunked [RDummy (Some "char") (Some "0")]]]]).
+Proof. run. Qed.
+Example C17_ex_unnamed_without_value : rej_acc (proto [fld "a" "char"; RField None (Some "char") None None None None]) (proto [fld "a" "char"]).
+Proof. run. Qed.
+Example C17_ex_unnamed_optional :
+  rej_acc (proto [RField None (Some "char") None None (Some "true") (Some "1")]) (proto [RField None (Some "char") None None None (Some "1")]).
+Proof. run. Qed.
+Example C17_ex_hardcoded_wrong_type : rej_acc (proto [lit "char" "x"]) (proto [lit "char" "7"]).
+Proof. run. Qed.
+Example C17_ex_hardcoded_bool : rej_acc (proto [lit "bool" "1"]) (proto [lit "bool" "true"]).
+Proof. run. Qed.
+Example C17_ex_hardcoded_wrong_length :
+  rej_acc (proto [RField None (Some "string") (Some "3") None None (Some "ab")])
+          (proto [RField None (Some "string") (Some "2") None None (Some "ab")]).
+Proof. run. Qed.
+Example C17_ex_hardcoded_enum : rej_acc (proto [lit "Direction" "1"]) (proto []).
+Proof. run. Qed.
+Example C17_ex_length_on_non_string : rej_acc (proto [fld_len "a" "char" "3"]) (proto [fld "a" "char"]).
+Proof. run. Qed.
+Example C17_ex_length_field_non_integer : rej_acc (proto [len "n" "Direction"]) (proto [len "n" "char"]).
+Proof. run. Qed.
+Example C17_ex_length_field_bad_offset :
+  rej_acc (proto [RLength (Some "n") (Some "char") (Some "x") None]) (proto [RLength (Some "n") (Some "char") (Some "-1") None]).
+Proof. run. Qed.
+Example C17_ex_array_unbounded : rej_acc (proto [arr "xs" "string"]) (proto [arr "xs" "Coords"]).
+Proof. run. Qed.
+Example C17_ex_switch_inaccessible :
+  rej_acc (proto [fld "a" "char"; RSwitch (Some "b") [case_ "1" []]]) (proto [fld "a" "char"; RSwitch (Some "a") [case_ "1" []]]).
+Proof. run. Qed.
+Example C17_ex_switch_on_array :
+  rej_acc (proto [arr "xs" "char"; RSwitch (Some "xs") [case_ "1" []]]) (proto [arr "xs" "char"]).
+Proof. run. Qed.
+Example C17_ex_switch_on_string :
+  rej_acc (proto [fld "s" "string"; RSwitch (Some "s") [case_ "1" []]]) (proto [fld "s" "string"]).
+Proof. run. Qed.
+Example C17_ex_lone_default :
+  rej_acc (proto [fld "a" "char"; RSwitch (Some "a") [default_ []]]) (proto [fld "a" "char"; RSwitch (Some "a") [case_ "1" []; default_ []]]).
+Proof. run. Qed.
+Example C17_ex_case_without_value :
+  rej_acc (proto [fld "a" "char"; RSwitch (Some "a") [case_ "1" []; RCase None None []]]) (proto [fld "a" "char"; RSwitch (Some "a") [case_ "1" []]]).
+Proof. run. Qed.
+Example C17_ex_case_not_digits :
+  rej_acc (proto [fld "a" "char"; RSwitch (Some "a") [case_ "Up" []]]) (proto [fld "a" "char"; RSwitch (Some "a") [case_ "1" []]]).
+Proof. run. Qed.
+Example C17_ex_case_declared_ordinal :
+  rej_acc (proto [fld "d" "Direction"; RSwitch (Some "d") [case_ "1" []]]) (proto [fld "d" "Direction"; RSwitch (Some "d") [case_ "Up" []]]).
+Proof. run. Qed.
+Example C17_ex_case_unknown_enum_name :
+  rej_acc (proto [fld "d" "Direction"; RSwitch (Some "d") [case_ "Sideways" []]]) (proto [fld "d" "Direction"; RSwitch (Some "d") [case_ "5" []]]).
+Proof. run. Qed.
+
+(* wherever it occurs: under a <case> under a <chunked> under a <case> *)
+Definition nested (leaf : list rinstr) : list rinstr :=
+  [fld "a" "char"; RSwitch (Some "a") [case_ "1" [RChunked [fld "z" "char"; RSwitch (Some "z") [case_ "1" leaf]]]]].
+Example C17_ex_nested_unknown_type : rej_acc (proto (nested [fld "w" "nosuch"])) (proto (nested [])).
+Proof. run. Qed.
+Example C17_ex_nested_in_struct :
+  rej_acc [net_file [] [mkRStruct (Some "S") (nested [fld "w" "nosuch"])]; client_file []]
+          [net_file [] [mkRStruct (Some "S") (nested [fld "w" "char"])]; client_file []].
+Proof. run. Qed.
+(* ... and the path theorem does apply to it (its hypotheses are satisfiable) *)
+Example C17_ex_any_path_theorem_applies : rejects (elab (proto (nested [fld "w" "nosuch"]))).
+Proof.
+  apply C17_D_unknown_type with (f := client_file (nested [fld "w" "nosuch"])) (body := nested [fld "w" "nosuch"])
+    (i := fld "w" "nosuch") (kc := true) (ks := true) (n := "nosuch").
+  - right. left. reflexivity.
+  - right. exists (pkt (nested [fld "w" "nosuch"])). split; [now left | reflexivity].
+  - apply (occ_case _ true true [fld "a" "char"] (Some "a") [] (Some "1") None _ [] []).
+    apply (occ_chunked _ false true [] _ []).
+    apply (occ_case _ false false [fld "z" "char"] (Some "z") [] (Some "1") None _ [] []).
+    apply (occ_here _ [] []).
+  - reflexivity.
+  - reflexivity.
+  - vm_compute. intros H. repeat (destruct H as [H|H]; [discriminate H|]). exact H.
+Qed.
+
+(* declarations *)
+Example C17_ex_duplicate_type_across_files :
+  rej_acc [net_file [] []; mkRFile "pub" [] [mkRStruct (Some "Direction") []] []; client_file []]
+          [net_file [] []; mkRFile "pub" [] [mkRStruct (Some "Direction2") []] []; client_file []].
+Proof. run. Qed.
+Example C17_ex_enum_bad_ordinal :
+  rej_acc [net_file [mkREnum (Some "E") (Some "char") [(Some "A", Some "x")]] []; client_file []]
+          [net_file [mkREnum (Some "E") (Some "char") [(Some "A", Some "1")]] []; client_file []].
+Proof. run. Qed.
+Example C17_ex_enum_missing_ordinal :
+  rej_acc [net_file [mkREnum (Some "E") (Some "char") [(Some "A", None)]] []; client_file []]
+          [net_file [mkREnum (Some "E") (Some "char") []] []; client_file []].
+Proof. run. Qed.
+Example C17_ex_enum_duplicate_ordinal :
+  rej_acc [net_file [mkREnum (Some "E") (Some "char") [(Some "A", Some "1"); (Some "B", Some "1")]] []; client_file []]
+          [net_file [mkREnum (Some "E") (Some "char") [(Some "A", Some "1"); (Some "B", Some "2")]] []; client_file []].
+Proof. run. Qed.
+Example C17_ex_enum_duplicate_name :
+  rej_acc [net_file [mkREnum (Some "E") (Some "char") [(Some "None", Some "1"); (Some "None_", Some "2")]] []; client_file []]
+          [net_file [mkREnum (Some "E") (Some "char") [(Some "None", Some "1"); (Some "Some_", Some "2")]] []; client_file []].
+Proof. run. Qed.
+Example C17_ex_enum_underlying_not_integer :
+  rej_acc [net_file [mkREnum (Some "E") (Some "string") []] []; client_file []]
+          [net_file [mkREnum (Some "E") (Some "short") []] []; client_file []].
+Proof. run. Qed.
+Example C17_ex_enum_underlying_itself :
+  rej_acc [net_file [mkREnum (Some "E") (Some "E") []] []; client_file []]
+          [net_file [mkREnum (Some "E") (Some "int") []] []; client_file []].
+Proof. run. Qed.
+Example C17_ex_override :
+  accepts (proto [fld "d" "Direction:short"; fld "b" "bool:short"]) = true /\
+  accepts (proto [fld "d" "Direction:short:char"]) = false /\ accepts (proto [fld "d" "Direction:Direction"]) = false /\
+  accepts (proto [fld "d" "Direction:string"]) = false /\ accepts (proto [fld "d" "Coords:char"]) = false /\
+  accepts (proto [fld "d" "char:short"]) = false.
+Proof. vm_compute. repeat split; reflexivity. Qed.
+Example C17_ex_struct_self_reference :
+  rej_acc [net_file [] [mkRStruct (Some "S") [fld "b" "S"]]; client_file []]
+          [net_file [] [mkRStruct (Some "S") [fld "b" "char"]]; client_file []].
+Proof. run. Qed.
+Example C17_ex_packet_unknown_family :
+  rej_acc [net_file [] []; mkRFile "net/client" [] [] [mkRPacket (Some "Nope") (Some "Accept") []]]
+          [net_file [] []; mkRFile "net/client" [] [] [mkRPacket (Some "Connection") (Some "Accept") []]].
+Proof. run. Qed.
+Example C17_ex_packet_unknown_action :
+  rej_acc [net_file [] []; mkRFile "net/server" [] [] [mkRPacket (Some "Connection") (Some "Nope") []]]
+          [net_file [] []; mkRFile "net/server" [] [] [mkRPacket (Some "Connection") (Some "Ping") []]].
+Proof. run. Qed.
+Example C17_ex_packet_bad_path :
+  rej_acc [net_file [] []; mkRFile "pub" [] [] [pkt []]] [net_file [] []; mkRFile "pub" [] [] []].
+Proof. run. Qed.
+Example C17_ex_duplicate_packet_id :
+  rej_acc [net_file [] []; mkRFile "net/client" [] [] [pkt []; mkRPacket (Some "Connection") (Some "Ping") []; pkt [fld "a" "char"]]]
+          [net_file [] []; mkRFile "net/client" [] [] [pkt []; mkRPacket (Some "Connection") (Some "Ping") []]].
+Proof. run. Qed.
+
+(* ================= rules, as phrased, that Model/Elab.v does NOT enforce ================= *)
+(* a struct that refers to itself is accepted when the self-reference comes after an unbounded field: neither
+   _calculate_fixed_struct_size nor _is_bounded resolves the type of that field (the first returns at the first
+   non-fixed field, the second skips every instruction until the next <break> once the result is False) *)
+Example C17_struct_self_reference_accepted_by_model :
+  accepts [net_file [] [mkRStruct (Some "S") [fld "a" "string"; fld "b" "S"]]; client_file []] = true.
+Proof. vm_compute. reflexivity. Qed.
+(* mutual recursion is accepted in the same way *)
+Example C17_struct_mutual_reference_accepted_by_model :
+  accepts [net_file [] [mkRStruct (Some "S") [fld "a" "string"; fld "b" "R"]; mkRStruct (Some "R") [fld "a" "string"; fld "b" "S"]]; client_file []] = true.
+Proof. vm_compute. reflexivity. Qed.
+(* a switch without any case is accepted whatever its field: inaccessible, an array, or a string *)
+Example C17_switch_no_cases_accepted_by_model :
+  accepts (proto [RSwitch (Some "nosuch") []]) = true /\
+  accepts (proto [arr "xs" "char"; RSwitch (Some "xs") []]) = true /\
+  accepts (proto [fld "s" "string"; RSwitch (Some "s") []]) = true.
+Proof. vm_compute. repeat split; reflexivity. Qed.
+(* a numeric length may be "referenced" any number of times; only named length fields are tracked *)
+Example C17_numeric_length_twice_accepted_by_model :
+  accepts (proto [fld_len "s" "string" "3"; fld_len "t" "string" "3"]) = true.
+Proof. vm_compute. reflexivity. Qed.
+(* a <break> resets the "optional field reached" state: a required field may follow an optional one across a break *)
+Example C17_required_after_optional_across_break_accepted_by_model :
+  accepts (proto [RChunked [fld_opt "a" "char"; RBreak; fld "b" "char"]]) = true.
+Proof. vm_compute. reflexivity. Qed.
+(* an UNNAMED field does not mark the length field it references as used *)
+Example C17_unnamed_length_reference_not_counted_accepted_by_model :
+  accepts (proto [len "n" "char"; RField None (Some "string") (Some "n") None None (Some "ab"); fld_len "t" "string" "n"]) = true.
+Proof. vm_compute. reflexivity. Qed.
